@@ -1158,8 +1158,8 @@ func (t *Tree) Compile(file string, args []string, out io.Writer) (err error) {
 			printBegin()
 			printSave(ok)
 			element := n.Front()
-			element.SetParentDetect(n.ParentDetect())
-			element.SetParentMultipleKey(n.ParentMultipleKey())
+			element.SetParentDetect(false)
+			element.SetParentMultipleKey(false)
 			compile(element, ko)
 			printRestore(ok)
 			printEnd()
@@ -1169,8 +1169,8 @@ func (t *Tree) Compile(file string, args []string, out io.Writer) (err error) {
 			printBegin()
 			printSave(ok)
 			element := n.Front()
-			element.SetParentDetect(n.ParentDetect())
-			element.SetParentMultipleKey(n.ParentMultipleKey())
+			element.SetParentDetect(false)
+			element.SetParentMultipleKey(false)
 			compile(element, ok)
 			printJump(ko)
 			printLabel(ok)
